@@ -32,6 +32,7 @@ package main
 import (
 	"bytes"
 	"crypto/sha1"
+	"errors"
 	"fmt"
 	"os"
 	"os/exec"
@@ -188,6 +189,11 @@ func probe() string {
 	b.Reset()
 	err = corpus.SampleFont().Write(&b, &type1.WriterOptions{})
 	fmt.Fprintf(&sb, "%x %v", b.Bytes(), err)
+	for _, format := range corpus.Formats {
+		b.Reset()
+		err = corpus.SampleFont().Write(&b, &type1.WriterOptions{Format: format})
+		fmt.Fprintf(&sb, "%x %v", sha1.Sum(b.Bytes()), err)
+	}
 	b.Reset()
 	err = corpus.SampleMetrics().Write(&b)
 	fmt.Fprintf(&sb, "%x %v", b.Bytes(), err)
@@ -201,6 +207,17 @@ func probe() string {
 	}
 	fmt.Fprintf(&sb, "%v %v", names.IsValid("A.b"), psenc.StandardEncoding[65])
 	return sb.String()
+}
+
+// failAfter accepts a number of Write calls and fails all later ones.
+type failAfter struct{ left int }
+
+func (w *failAfter) Write(p []byte) (int, error) {
+	if w.left <= 0 {
+		return 0, errors.New("writer gave up")
+	}
+	w.left--
+	return len(p), nil
 }
 
 // ---------------------------------------------------------------------------
@@ -461,6 +478,27 @@ func hostilePrograms() []hostile {
 		}
 		names.FromUnicode(0x1F600)
 		names.FromUnicode('z')
+		return true
+	}})
+	hs = append(hs, hostile{"writes that fail half-way: a writer that gives up after k calls, a font that cannot be written", func() bool {
+		// whatever a writer had prepared when it gave up (buffers, partly filled
+		// tables) is not seen by the next write
+		for _, format := range append([]type1.FileFormat{0}, corpus.Formats...) {
+			bad := corpus.SampleFont()
+			bad.Glyphs["bad glyph name"] = bad.Glyphs["A"]
+			bad.Write(&bytes.Buffer{}, &type1.WriterOptions{Format: format})
+			bad = corpus.SampleFont()
+			bad.FontName = "not a name"
+			bad.Write(&bytes.Buffer{}, &type1.WriterOptions{Format: format})
+			// (the failed writes come last: nothing successful tidies up after them)
+			for _, k := range []int{30, 9, 5, 2, 1, 0} {
+				corpus.SampleFont().Write(&failAfter{left: k}, &type1.WriterOptions{Format: format})
+			}
+		}
+		for _, k := range []int{0, 1, 3, 8, 20} {
+			corpus.SampleFont().WritePDF(&failAfter{left: k})
+			corpus.SampleMetrics().Write(&failAfter{left: k})
+		}
 		return true
 	}})
 	hs = append(hs, hostile{"font read, mutated and written", func() bool {
